@@ -22,6 +22,9 @@
 #include <forward_list>
 #include <limits>
 #include <stdexcept>
+#if VRT_ASAN
+#include <sanitizer/lsan_interface.h>
+#endif
 
 using namespace vrt;
 typedef __int128 i128;
@@ -54,6 +57,7 @@ template <class Rec> struct Logs {
     std::vector<Rec> per[MAXT];
     std::mutex om; std::vector<Rec> overflow;
     void add(Rec r) {
+        static thread_local unsigned calls = 0; if ((++calls & 63) == 0) progress();     // a body ran: the loop is alive
         int t = body_tid(); r.thr = t;
         if (t < MAXT) per[t].push_back(r); else { std::lock_guard<std::mutex> l(om); overflow.push_back(r); }
     }
@@ -67,7 +71,7 @@ template <class Rec> struct Logs {
 };
 struct ThreadSet {                                 // which threads ran bodies (for constructs without a chunk log)
     std::atomic<uint64_t> bits{0};
-    void mark() { int t = body_tid(); uint64_t b = 1ull << (t & 63); if (!(bits.load(std::memory_order_relaxed) & b)) bits.fetch_or(b, std::memory_order_relaxed); }
+    void mark() { static thread_local unsigned calls = 0; if ((++calls & 63) == 0) progress(); int t = body_tid(); uint64_t b = 1ull << (t & 63); if (!(bits.load(std::memory_order_relaxed) & b)) bits.fetch_or(b, std::memory_order_relaxed); }
     int count() const { return __builtin_popcountll(bits.load()); }
 };
 
@@ -797,8 +801,12 @@ int main(int argc, char** argv) {
     long done = 0;
     while (done < cases) {
         int conc = fixed_conc ? fixed_conc : (int)top.pick(std::vector<int>{ 1, 2, 2, 3, 3, 4, 4, 5, 6, 7, 8, 8, 12, 16, 16 });
-        tbb::task_arena A(conc, top.chance(1, 4) ? 0 : 1);
-        A.initialize();
+        int reserved = top.chance(1, 4) ? 0 : 1;
+        // arenas live as long as the process: creating and destroying arenas is not what this property is about
+        static std::map<int, tbb::task_arena*>* arenas = new std::map<int, tbb::task_arena*>();
+        tbb::task_arena*& ap = (*arenas)[conc * 2 + reserved];
+        if (!ap) { ap = new tbb::task_arena(conc, reserved); ap->initialize(); }
+        tbb::task_arena& A = *ap;
         std::unique_ptr<Keeper> keeper;
         if (hot && conc > 1) keeper.reset(new Keeper(A, 4, 40));
         int drivers = 1 + (int)top.below(maxdrivers);
@@ -831,5 +839,10 @@ int main(int argc, char** argv) {
     R.stat_max("max_chunks_per_loop", g_t.max_chunks.load()); R.stat_max("max_split_depth_log2", g_t.max_depth.load()); R.stat_max("max_threads_per_loop", g_t.max_threads.load());
     R.stat("hook_delays", (long long)perturb().delays.load());
     R.write();
+#if VRT_ASAN
+    // vrt keeps its per-thread hook records in a static vector; once static destructors have run they would all look
+    // leaked to the end-of-process check, so the leak check is made here, while everything that is still owned is reachable
+    __lsan_do_leak_check();
+#endif
     return 0;
 }
